@@ -297,6 +297,7 @@ type workerSummary struct {
 	Stats       map[string]int64 `json:"stats"`
 	Outcomes    []string         `json:"outcomes"`
 	OutcomeN    map[string]int64 `json:"outcome_n,omitempty"`
+	ByStratum   map[string]int64 `json:"by_stratum,omitempty"` // "stratum | outcome" -> cases
 	Samples     []string         `json:"samples"`
 	Strata      map[string]int64 `json:"strata"`
 	TimedOut    bool             `json:"timed_out"`
@@ -440,6 +441,12 @@ func runWorker(c *Check, tier string, seed int64, spec string, startAfter int64)
 				sum.OutcomeN = map[string]int64{}
 			}
 			sum.OutcomeN[res.Outcome]++
+			if sum.ByStratum == nil {
+				sum.ByStratum = map[string]int64{}
+			}
+			if k := stratum + " | " + res.Outcome; len(sum.ByStratum) < 400 || sum.ByStratum[k] > 0 {
+				sum.ByStratum[k]++
+			}
 		}
 		if len(sum.Samples) < 6 && (res.Nontrivial || sum.Evaluations < 3) && sum.Evaluations%7 == 1 {
 			s := res.Sample
@@ -803,6 +810,12 @@ func finish(c *Check, tier string, seed int64, st *parentState, wall time.Durati
 			}
 			total.OutcomeN[o] += n
 		}
+		for o, n := range s.ByStratum {
+			if total.ByStratum == nil {
+				total.ByStratum = map[string]int64{}
+			}
+			total.ByStratum[o] += n
+		}
 		if len(total.Samples) < 10 {
 			total.Samples = append(total.Samples, s.Samples...)
 		}
@@ -871,6 +884,7 @@ func finish(c *Check, tier string, seed int64, st *parentState, wall time.Durati
 		"strata":                           total.Strata,
 		"outcome_classes":                  len(outcomes),
 		"outcome_histogram":                total.OutcomeN,
+		"outcomes_by_stratum":              total.ByStratum,
 		"known_findings_seen":              knownSeen,
 		"worker_restarts":                  st.fatals,
 		"fatal_exits_not_reproduced_alone": st.unconfirmed,
